@@ -81,8 +81,8 @@ SAFE_METHODS = {
           'removeprefix', 'removesuffix', 'expandtabs', 'center', 'ljust', 'rjust'},
     bytes: {'decode', 'startswith', 'endswith', 'lower', 'upper', 'strip', 'split', 'replace', 'find', 'hex'},
     list: {'append', 'extend', 'index', 'count', 'copy', 'remove', 'insert', 'pop', 'sort', 'reverse', 'clear'},
-    tuple: {'index', 'count'},
-    dict: {'get', 'keys', 'values', 'items', 'setdefault', 'update', 'pop', 'copy'},
+    tuple: {'index', 'count', '__getitem__', '__contains__'},
+    dict: {'get', 'keys', 'values', 'items', 'setdefault', 'update', 'pop', 'copy', '__getitem__', '__contains__'},
     types.MappingProxyType: {'get', 'keys', 'values', 'items'},
     set: {'add', 'union', 'intersection', 'difference', 'discard', 'remove', 'update', 'isdisjoint', 'issubset', 'issuperset'},
     type(re.compile('')): {'match', 'fullmatch', 'search', 'sub', 'findall', 'finditer', 'split', 'subn'},
